@@ -66,6 +66,10 @@ def unlock_task(prop, cfg, tier, seed):
     def body(E, ctx):
         E.structural_bytes_eq = True
         Tlen = E.var("content_length", 0, 1 << 16)
+        if scen.startswith("tamper"):
+            # an empty configuration is outside the claim: its single padding block can be forged with probability 2^-8
+            # (the MAC covers the plaintext after padding removal), which no implementation of this format can avoid
+            E.assume(Tlen >= 1)
         pad = 16 - Tlen % 16  # PKCS#7
         k_at = E.var("tamper_at", 0, 1 << 17)
         vars_ = dict(content_length=Tlen, tamper_at=k_at)
